@@ -457,4 +457,383 @@ theorem journeyOK_iff {cx : Ctx} {C : List Conn} {bd : Int} {j : List JStep} :
     intro l x hg hx
     exact hl x.arrStop (by simp [lastStop, hg, hx])
 
+/-! ### applying a found case -/
+
+/-- what the clean-up needs to know about the index slices it scans (discharged for datasets in
+    `Proofs/Slice.lean`) -/
+def SliceOK (cx : Ctx) (C : List Conn) : Prop :=
+  ∀ e ∈ C, ∀ x ∈ C, e.trip = x.trip → e.seq ≤ x.seq → ∀ c ∈ revSlice cx.ds e.trip (e.seq - 1) (x.seq - 1),
+    c ∈ C ∧ c.trip = e.trip ∧ e.seq ≤ c.seq ∧ c.seq ≤ x.seq
+
+theorem LegsOK.isRide {cx : Ctx} {C : List Conn} : ∀ {legs : List JStep}, LegsOK cx C legs → ∀ l ∈ legs, IsRide C l := by
+  intro legs
+  induction legs with
+  | nil => intro _ l hl; cases hl
+  | cons a rest ih =>
+    intro h l hl
+    rcases List.mem_cons.mp hl with rfl | h'
+    · exact h.head
+    · exact ih h.tail l h'
+
+/-- the journey seen from a found case -/
+structure Setup (cx : Ctx) (C : List Conn) (bd : Int) (j : List JStep) (f : Found)
+    (acc egr : JStep) (A : List JStep) (F : JStep) (M : List JStep) (T : JStep) (B : List JStep)
+    (eF xF eT xT : Conn) : Prop where
+  hj : j = (acc :: A) ++ F :: (M ++ T :: (B ++ [egr]))
+  hfrom : (acc :: A).length = f.from_
+  hto : (acc :: A).length + 1 + M.length = f.to
+  hacc : acc.enter = none
+  hegr : egr.enter = none
+  hok : LegsOK cx C (A ++ F :: (M ++ T :: B))
+  hends : EndsOK cx bd acc egr (A ++ F :: (M ++ T :: B))
+  hFe : F.enter = some eF
+  hFx : F.exit = some xF
+  hTe : T.enter = some eT
+  hTx : T.exit = some xT
+  hrF : Ride C eF xF
+  hrT : Ride C eT xT
+  n1 : f.case = 1 → f.node = xT.arrStop
+  n2 : f.case = 2 → f.node = xF.arrStop
+  n3 : f.case = 3 → f.node = eT.depStop
+
+theorem setup_of {cx : Ctx} {C : List Conn} {bd : Int} {j : List JStep} {f : Found}
+    (hJ : JourneyOK cx C bd j) (hf : FoundSpec j f) :
+    ∃ acc egr A F M T B eF xF eT xT, Setup cx C bd j f acc egr A F M T B eF xF eT xT := by
+  obtain ⟨acc, legs, egr, hj, ha, he, hne, hok, hends⟩ := journeyOK_iff.mp hJ
+  obtain ⟨eF, xF, eT, xT, h1, h2, h3, h4, n1, n2, n3⟩ := hf.legs
+  have hjl : j.length = legs.length + 2 := by rw [hj]; simp
+  have hj' : j = acc :: (legs ++ [egr]) := by rw [hj]; simp
+  have hfrom1 : 1 ≤ f.from_ := by
+    rcases Nat.eq_zero_or_pos f.from_ with h0 | h0
+    · rw [h0, hj'] at h1; simp [List.getD] at h1; rw [ha] at h1; cases h1
+    · exact h0
+  have hto1 : f.to ≤ legs.length := by
+    have hlt := hf.len
+    rcases Nat.lt_or_ge legs.length f.to with hgt | hle
+    · have : f.to = legs.length + 1 := by omega
+      rw [this, hj'] at h3
+      have : (acc :: (legs ++ [egr])).getD (legs.length + 1) {} = egr := by
+        simp [List.getD, List.getElem?_append_right]
+      rw [this, he] at h3; cases h3
+    · exact hle
+  have hlt := hf.lt
+  obtain ⟨A, F, M, T, B, hl, hA, hM⟩ := decomp2 legs (f.from_ - 1) (f.to - 1) (by omega) (by omega)
+  have hjd : j = (acc :: A) ++ F :: (M ++ T :: (B ++ [egr])) := by rw [hj', hl]; simp
+  have hPl : (acc :: A).length = f.from_ := by simp; omega
+  have hPM : (acc :: A).length + 1 + M.length = f.to := by simp; omega
+  have hF : j.getD f.from_ {} = F := by rw [hjd, ← hPl]; exact getD_decomp_F _ _ _ _
+  have hT : j.getD f.to {} = T := by rw [hjd, ← hPM]; exact getD_decomp_T _ _ _ _ _ _
+  rw [hF] at h1 h2; rw [hT] at h3 h4
+  rw [hl] at hok hends
+  obtain ⟨e1, x1, a1, a2, a3⟩ := hok.isRide F (by simp)
+  obtain ⟨e2, x2, b1, b2, b3⟩ := hok.isRide T (by simp)
+  rw [h1] at a1; cases a1; rw [h2] at a2; cases a2
+  rw [h3] at b1; cases b1; rw [h4] at b2; cases b2
+  exact ⟨acc, egr, A, F, M, T, B, eF, xF, eT, xT, ⟨hjd, hPl, hPM, ha, he, hok, hends, h1, h2, h3, h4, a3, b3, n1, n2, n3⟩⟩
+
+/-- after a BTS / GTF / CSS rewrite -/
+theorem conclude2 {cx : Ctx} {C : List Conn} {bd : Int} {j : List JStep} {f : Found}
+    {acc egr : JStep} {A : List JStep} {F : JStep} {M : List JStep} {T : JStep} {B : List JStep} {eF xF eT xT : Conn}
+    (s : Setup cx C bd j f acc egr A F M T B eF xF eT xT) {F' T' : JStep}
+    (hFe : F'.enter = F.enter) (hTx : T'.exit = T.exit) (hok : LegsOK cx C (A ++ F' :: T' :: B)) :
+    JourneyOK cx C bd ((acc :: A) ++ F' :: T' :: (B ++ [egr])) := by
+  apply journeyOK_iff.mpr
+  refine ⟨acc, A ++ F' :: T' :: B, egr, by simp, s.hacc, s.hegr, by simp, hok, ⟨?_, ?_⟩⟩
+  · intro e he
+    rw [firstEnter_congr A (M ++ T :: B) (T' :: B) hFe] at he
+    exact s.hends.first e he
+  · intro y hy
+    have : lastStop (A ++ F' :: T' :: B) = lastStop (A ++ F :: (M ++ T :: B)) := by
+      have e1 : A ++ F' :: T' :: B = (A ++ [F']) ++ T' :: B := by simp
+      have e2 : A ++ F :: (M ++ T :: B) = (A ++ F :: M) ++ T :: B := by simp
+      rw [e1, e2]; exact lastStop_congr _ _ B (by rw [hTx])
+    rw [this] at hy
+    exact s.hends.last y hy
+
+/-- after a CSL rewrite -/
+theorem conclude1 {cx : Ctx} {C : List Conn} {bd : Int} {j : List JStep} {f : Found}
+    {acc egr : JStep} {A : List JStep} {F : JStep} {M : List JStep} {T : JStep} {B : List JStep} {eF xF eT xT : Conn}
+    (s : Setup cx C bd j f acc egr A F M T B eF xF eT xT) {F' : JStep} {c : Conn}
+    (hFe : F'.enter = F.enter) (hFx : F'.exit = some c) (hstop : c.arrStop = xT.arrStop)
+    (hok : LegsOK cx C (A ++ F' :: B)) :
+    JourneyOK cx C bd ((acc :: A) ++ F' :: (B ++ [egr])) := by
+  apply journeyOK_iff.mpr
+  refine ⟨acc, A ++ F' :: B, egr, by simp, s.hacc, s.hegr, by simp, hok, ⟨?_, ?_⟩⟩
+  · intro e he
+    rw [firstEnter_congr A (M ++ T :: B) B hFe] at he
+    exact s.hends.first e he
+  · intro y hy
+    have : lastStop (A ++ F' :: B) = lastStop (A ++ F :: (M ++ T :: B)) := by
+      have e2 : A ++ F :: (M ++ T :: B) = (A ++ F :: M) ++ T :: B := by simp
+      rw [e2]; exact lastStop_congr A _ B (by rw [hFx, s.hTx]; simp [hstop])
+    rw [this] at hy
+    exact s.hends.last y hy
+
+/-! ### the list computations of the four rewrites -/
+
+theorem csl_lists {α : Type} (P : List α) (F : α) (M : List α) (T : α) (Q : List α) (g1 g2 : α → α) :
+    modifyAt (eraseRange (modifyAt (P ++ F :: (M ++ T :: Q)) P.length g1) (P.length + 1) (P.length + 1 + M.length + 1)) P.length g2
+      = P ++ g2 (g1 F) :: Q := by
+  rw [modifyAt_decomp_F]
+  have e : P ++ g1 F :: (M ++ T :: Q) = P ++ g1 F :: ((M ++ [T]) ++ Q) := by simp
+  have hl : P.length + 1 + M.length + 1 = P.length + 1 + (M ++ [T]).length := by simp; omega
+  rw [e, hl, eraseRange_decomp, modifyAt_decomp_F]
+
+theorem gtf_lists {α : Type} (P : List α) (F : α) (M : List α) (T : α) (Q : List α) (g : α → α) :
+    eraseRange (modifyAt (P ++ F :: (M ++ T :: Q)) P.length g) (P.length + 1) (P.length + 1 + M.length)
+      = P ++ g F :: T :: Q := by
+  rw [modifyAt_decomp_F, eraseRange_decomp]
+
+theorem bts_lists {α : Type} (P : List α) (F : α) (M : List α) (T : α) (Q : List α) (gF gT : α → α) :
+    eraseRange (modifyAt (modifyAt (P ++ F :: (M ++ T :: Q)) (P.length + 1 + M.length) gT) P.length gF)
+        (P.length + 1) (P.length + 1 + M.length)
+      = P ++ gF F :: gT T :: Q := by
+  rw [modifyAt_decomp_T, modifyAt_decomp_F, eraseRange_decomp]
+
+/-! ### CSS loops -/
+
+theorem cssExit_spec (node : Nat) : ∀ (l : List Conn) (acc : Option Conn) (x : Conn),
+    (∀ y, acc = some y → y.arrStop = node ∧ y.canUnboard = true) →
+    cssExit node l acc = some x → (x ∈ l ∨ acc = some x) ∧ x.arrStop = node ∧ x.canUnboard = true := by
+  intro l
+  induction l with
+  | nil => intro acc x hacc h; simp [cssExit] at h; exact ⟨Or.inr h, hacc x h⟩
+  | cons c rest ih =>
+    intro acc x hacc h
+    simp only [cssExit] at h
+    split at h
+    · rename_i hn
+      split at h
+      · rename_i hu
+        obtain ⟨h1, h2⟩ := ih (some c) x (by intro y hy; cases hy; exact ⟨hn, hu⟩) h
+        refine ⟨?_, h2⟩
+        rcases h1 with h1 | h1
+        · exact Or.inl (List.mem_cons_of_mem _ h1)
+        · cases h1; exact Or.inl (List.mem_cons_self ..)
+      · exact ⟨Or.inr h, hacc x h⟩
+    · obtain ⟨h1, h2⟩ := ih acc x hacc h
+      refine ⟨?_, h2⟩
+      rcases h1 with h1 | h1
+      · exact Or.inl (List.mem_cons_of_mem _ h1)
+      · exact Or.inr h1
+
+/-- second CSS loop without an exit connection: nothing is rewritten -/
+theorem cssEnter_none (node from_ to : Nat) : ∀ (l : List Conn) (j : List JStep) (ig us : List Nat) (ap : Bool),
+    ∃ ig', cssEnter node from_ to none l (j, ig, us, ap) = (j, ig', us, ap) := by
+  intro l
+  induction l with
+  | nil => intro j ig us ap; exact ⟨ig, rfl⟩
+  | cons c rest ih =>
+    intro j ig us ap
+    simp only [cssEnter]
+    split
+    · exact ⟨ig ++ [node], rfl⟩
+    · exact ih j ig us ap
+
+/-- second CSS loop with exit connection `x`: shape of the journey -/
+theorem cssEnter_some (node : Nat) (P : List JStep) (F : JStep) (M : List JStep) (T : JStep) (Q : List JStep)
+    (x : Conn) (S : List Conn) :
+    ∀ (l : List Conn) (F0 T0 : JStep) (ig us : List Nat) (ap : Bool), (∀ c ∈ l, c ∈ S) →
+      (ap = false → F0 = F ∧ T0 = T) →
+      (ap = true → ∃ c, F0 = { F with exit := some x } ∧ c ∈ S ∧ c.depStop = node ∧ c.canBoard = true ∧
+          T0 = { T with enter := some c }) →
+      ∃ F1 T1 ig' us' ap',
+        cssEnter node P.length (P.length + 1 + M.length) (some x) l (P ++ F0 :: (M ++ T0 :: Q), ig, us, ap)
+          = (P ++ F1 :: (M ++ T1 :: Q), ig', us', ap') ∧
+        (ap' = false → F1 = F ∧ T1 = T) ∧
+        (ap' = true → ∃ c, F1 = { F with exit := some x } ∧ c ∈ S ∧ c.depStop = node ∧ c.canBoard = true ∧
+          T1 = { T with enter := some c }) := by
+  intro l
+  induction l with
+  | nil => intro F0 T0 ig us ap _ h0 h1; exact ⟨F0, T0, ig, us, ap, rfl, h0, h1⟩
+  | cons c rest ih =>
+    intro F0 T0 ig us ap hS h0 h1
+    simp only [cssEnter]
+    split
+    · rename_i hn
+      split
+      · rename_i hcb
+        rw [modifyAt_decomp_F, modifyAt_decomp_T]
+        have hF0 : ({ F0 with exit := some x } : JStep) = { F with exit := some x } := by
+          cases ap with
+          | false => rw [(h0 rfl).1]
+          | true => obtain ⟨c2, b, _⟩ := h1 rfl; rw [b]
+        have hT0 : ({ T0 with enter := some c } : JStep) = { T with enter := some c } := by
+          cases ap with
+          | false => rw [(h0 rfl).2]
+          | true => obtain ⟨c2, _, _, _, _, e⟩ := h1 rfl; rw [e]
+        exact ih { F0 with exit := some x } { T0 with enter := some c } ig (us ++ [4]) true
+          (fun y hy => hS y (List.mem_cons_of_mem _ hy))
+          (by intro h; cases h) (by intro _; exact ⟨c, hF0, hS c (List.mem_cons_self ..), hn, hcb, hT0⟩)
+      · exact ⟨F0, T0, ig ++ [node], us, ap, rfl, h0, h1⟩
+    · exact ih F0 T0 ig us ap (fun y hy => hS y (List.mem_cons_of_mem _ hy)) h0 h1
+
+/-! ### the four rewrites preserve validity -/
+
+theorem find_some_mem {l : List Conn} {p : Conn → Bool} {c : Conn} (h : l.find? p = some c) : c ∈ l ∧ p c = true :=
+  ⟨List.mem_of_find?_eq_some h, List.find?_some h⟩
+
+theorem applyFound_ok {cx : Ctx} {C : List Conn} (w : TimeWF cx C) (hs : SliceOK cx C) {bd : Int}
+    {st : OptState} {f : Found} (hJ : JourneyOK cx C bd st.journey) (hf : FoundSpec st.journey f) :
+    JourneyOK cx C bd (applyFound cx.ds st f).1.journey := by
+  obtain ⟨acc, egr, A, F, M, T, B, eF, xF, eT, xT, su⟩ := setup_of hJ hf
+  have hgF : st.journey.getD f.from_ {} = F := by rw [su.hj, ← su.hfrom]; exact getD_decomp_F _ _ _ _
+  have hgT : st.journey.getD f.to {} = T := by rw [su.hj, ← su.hto]; exact getD_decomp_T _ _ _ _ _ _
+  -- facts about the slices of the two legs
+  have sliceF := hs eF su.hrF.1 xF su.hrF.2.1 su.hrF.2.2.1 su.hrF.2.2.2.1
+  have sliceT := hs eT su.hrT.1 xT su.hrT.2.1 su.hrT.2.2.1 su.hrT.2.2.2.1
+  -- a connection of F's slice as new exit
+  have newExit : ∀ c ∈ revSlice cx.ds eF.trip (eF.seq - 1) (xF.seq - 1), c.canUnboard = true →
+      Ride C eF c ∧ c.arr ≤ xF.arr := by
+    intro c hc hcu
+    obtain ⟨a, b, c1, d⟩ := sliceF c hc
+    exact ⟨⟨su.hrF.1, a, b.symm, c1, su.hrF.2.2.2.2.1, hcu⟩,
+      w.arrMono c a xF su.hrF.2.1 (by rw [b, su.hrF.2.2.1]) d⟩
+  -- a connection of T's slice as new enter
+  have newEnter : ∀ c ∈ revSlice cx.ds eT.trip (eT.seq - 1) (xT.seq - 1), c.canBoard = true →
+      Ride C c xT ∧ eT.dep ≤ c.dep ∧ c.effWait cx.p.minWait = eT.effWait cx.p.minWait := by
+    intro c hc hcb
+    obtain ⟨a, b, c1, d⟩ := sliceT c hc
+    exact ⟨⟨a, su.hrT.2.1, by rw [b, su.hrT.2.2.1], d, hcb, su.hrT.2.2.2.2.2⟩,
+      w.depMono eT su.hrT.1 c a b.symm c1, w.waitTrip c a eT su.hrT.1 b⟩
+  unfold applyFound
+  rcases hf.cases with h1 | h2 | h3 | h4
+  · -- CSL
+    simp only [h1, hgF, hgT, su.hFe, su.hFx]
+    cases hfind : (revSlice cx.ds eF.trip (eF.seq - 1) (xF.seq - 1)).find? (fun c => decide (c.arrStop = f.node)) with
+    | none => exact hJ
+    | some c =>
+      simp only
+      obtain ⟨hcm, hcp⟩ := find_some_mem hfind
+      have hcn : c.arrStop = f.node := by simpa using hcp
+      split
+      · exact hJ
+      · rename_i hcu
+        have hcu' : c.canUnboard = true := by simpa using hcu
+        obtain ⟨hr, ha⟩ := newExit c hcm hcu'
+        have hl : (modifyAt (eraseRange (modifyAt st.journey f.from_ fun s => { s with walk := T.walk, dist := T.dist })
+            (f.from_ + 1) (f.to + 1)) f.from_ fun s => { s with exit := some c })
+            = (acc :: A) ++ ({ F with walk := T.walk, dist := T.dist, exit := some c } : JStep) :: (B ++ [egr]) := by
+          rw [su.hj, ← su.hfrom, ← su.hto]
+          exact csl_lists _ _ _ _ _ _ _
+        simp only [hl]
+        have hok := splice1 w su.hok su.hFe su.hFx su.hTe su.hTx su.hrT
+          (F' := { F with walk := T.walk, dist := T.dist, exit := some c }) su.hFe rfl rfl hr ha (by rw [hcn, su.n1 h1])
+        exact conclude1 su (F' := { F with walk := T.walk, dist := T.dist, exit := some c }) rfl rfl
+          (by rw [hcn, su.n1 h1]) hok
+  · -- BTS
+    simp only [h2, hgF, hgT, su.hTe, su.hTx]
+    cases hfind : (revSlice cx.ds eT.trip (eT.seq - 1) (xT.seq - 1)).find? (fun c => decide (c.depStop = f.node)) with
+    | none => exact hJ
+    | some c =>
+      simp only
+      obtain ⟨hcm, hcp⟩ := find_some_mem hfind
+      have hcn : c.depStop = f.node := by simpa using hcp
+      split
+      · exact hJ
+      · rename_i hcb
+        have hcb' : c.canBoard = true := by simpa using hcb
+        obtain ⟨hr, hd, hw⟩ := newEnter c hcm hcb'
+        have hl : eraseRange (modifyAt (modifyAt st.journey f.to fun s => { s with enter := some c }) f.from_
+              fun s => { s with walk := 0, dist := 0 }) (f.from_ + 1) f.to
+            = (acc :: A) ++ ({ F with walk := 0, dist := 0 } : JStep) :: ({ T with enter := some c } : JStep) :: (B ++ [egr]) := by
+          rw [su.hj, ← su.hfrom, ← su.hto]
+          exact bts_lists _ _ _ _ _ _ _
+        simp only [hl]
+        have hok := splice2 w su.hok su.hFe su.hFx su.hTe su.hTx
+          (F' := { F with walk := 0, dist := 0 }) (T' := { T with enter := some c })
+          su.hFe su.hFx rfl su.hrF (Int.le_refl _) rfl su.hTx rfl hr hd hw (by rw [hcn, su.n2 h2])
+        exact conclude2 su (F' := { F with walk := 0, dist := 0 }) (T' := { T with enter := some c }) rfl rfl hok
+  · -- GTF
+    simp only [h3, hgF, hgT, su.hFe, su.hFx]
+    cases hfind : (revSlice cx.ds eF.trip (eF.seq - 1) (xF.seq - 1)).find? (fun c => decide (c.arrStop = f.node)) with
+    | none => exact hJ
+    | some c =>
+      simp only
+      obtain ⟨hcm, hcp⟩ := find_some_mem hfind
+      have hcn : c.arrStop = f.node := by simpa using hcp
+      split
+      · exact hJ
+      · rename_i hcu
+        have hcu' : c.canUnboard = true := by simpa using hcu
+        obtain ⟨hr, ha⟩ := newExit c hcm hcu'
+        have hl : eraseRange (modifyAt st.journey f.from_ fun s => { s with exit := some c, walk := 0, dist := 0 })
+              (f.from_ + 1) f.to
+            = (acc :: A) ++ ({ F with exit := some c, walk := 0, dist := 0 } : JStep) :: T :: (B ++ [egr]) := by
+          rw [su.hj, ← su.hfrom, ← su.hto]
+          exact gtf_lists _ _ _ _ _ _
+        simp only [hl]
+        have hok := splice2 w su.hok su.hFe su.hFx su.hTe su.hTx
+          (F' := { F with exit := some c, walk := 0, dist := 0 }) (T' := T)
+          su.hFe rfl rfl hr ha su.hTe su.hTx rfl su.hrT (Int.le_refl _) rfl (by rw [hcn, su.n3 h3])
+        exact conclude2 su (F' := { F with exit := some c, walk := 0, dist := 0 }) (T' := T) rfl rfl hok
+  · -- CSS
+    have hc4 : ¬ f.case = 1 ∧ ¬ f.case = 2 ∧ ¬ f.case = 3 := by omega
+    simp only [h4, hgF, hgT, su.hFe, su.hFx, su.hTe, su.hTx]
+    cases hex : cssExit f.node (revSlice cx.ds eF.trip (eF.seq - 1) (xF.seq - 1)) none with
+    | none =>
+      obtain ⟨ig', heq⟩ := cssEnter_none f.node f.from_ f.to (revSlice cx.ds eT.trip (eT.seq - 1) (xT.seq - 1))
+        st.journey st.ignore st.used false
+      simp only [heq]
+      exact hJ
+    | some x =>
+      obtain ⟨hxm, hxn, hxu⟩ := cssExit_spec f.node _ none x (by intro y hy; cases hy) hex
+      have hxm' : x ∈ revSlice cx.ds eF.trip (eF.seq - 1) (xF.seq - 1) := by
+        rcases hxm with h | h
+        · exact h
+        · cases h
+      obtain ⟨F1, T1, ig', us', ap', heq, r0, r1⟩ := cssEnter_some f.node (acc :: A) F M T (B ++ [egr]) x
+        (revSlice cx.ds eT.trip (eT.seq - 1) (xT.seq - 1)) (revSlice cx.ds eT.trip (eT.seq - 1) (xT.seq - 1))
+        F T st.ignore st.used false (fun c hc => hc) (fun _ => ⟨rfl, rfl⟩) (by intro h; cases h)
+      rw [su.hto, su.hfrom, ← su.hj] at heq
+      simp only [heq]
+      cases ap' with
+      | false =>
+        obtain ⟨rF, rT⟩ := r0 rfl
+        subst rF; subst rT
+        simp only [Bool.false_eq_true, if_false]
+        rw [← su.hj]; exact hJ
+      | true =>
+        obtain ⟨c, rF, hcS, hcn, hcb, rT⟩ := r1 rfl
+        subst rF; subst rT
+        simp only [if_true]
+        obtain ⟨hrx, hax⟩ := newExit x hxm' hxu
+        obtain ⟨hrc, hd, hw⟩ := newEnter c hcS hcb
+        have hl : eraseRange (modifyAt ((acc :: A) ++ ({ F with exit := some x } : JStep) :: (M ++ ({ T with enter := some c } : JStep) :: (B ++ [egr])))
+              f.from_ fun s => { s with walk := 0, dist := 0 }) (f.from_ + 1) f.to
+            = (acc :: A) ++ ({ F with exit := some x, walk := 0, dist := 0 } : JStep) :: ({ T with enter := some c } : JStep) :: (B ++ [egr]) := by
+          rw [← su.hfrom, ← su.hto]
+          exact gtf_lists _ _ _ _ _ _
+        simp only [hl]
+        have hok := splice2 w su.hok su.hFe su.hFx su.hTe su.hTx
+          (F' := { F with exit := some x, walk := 0, dist := 0 }) (T' := { T with enter := some c })
+          su.hFe rfl rfl hrx hax rfl su.hTx rfl hrc hd hw (by rw [hxn, hcn])
+        exact conclude2 su (F' := { F with exit := some x, walk := 0, dist := 0 }) (T' := { T with enter := some c }) rfl rfl hok
+
+/-- the `while` of `optimizeJourney` -/
+theorem optimizeLoop_ok {cx : Ctx} {C : List Conn} (w : TimeWF cx C) (hs : SliceOK cx C) {bd : Int} :
+    ∀ (fuel : Nat) (st o : OptState), JourneyOK cx C bd st.journey → optimizeLoop cx.ds fuel st = some o →
+      JourneyOK cx C bd o.journey := by
+  intro fuel
+  induction fuel with
+  | zero => intro st o _ h; simp [optimizeLoop] at h
+  | succ fuel ih =>
+    intro st o hJ h
+    simp only [optimizeLoop] at h
+    cases hsj : searchJourney cx.ds st.ignore st.journey 0 [] with
+    | none => rw [hsj] at h; cases h; exact hJ
+    | some f =>
+      rw [hsj] at h
+      simp only at h
+      have hf : FoundSpec st.journey f := searchJourney_spec cx.ds st.ignore st.journey st.journey [] f rfl hsj
+      have hnext := applyFound_ok w hs hJ hf
+      split at h
+      · exact ih _ o hnext h
+      · cases h; exact hnext
+
+/-- **the journey clean-up preserves validity** -/
+theorem cleanupPreserves {cx : Ctx} {C : List Conn} (w : TimeWF cx C) (hs : SliceOK cx C) : CleanupPreserves cx C := by
+  intro bd j o hJ h
+  exact optimizeLoop_ok w hs _ { journey := j } o hJ h
+
 end Tr
